@@ -15,9 +15,11 @@ type verifRDLConn struct {
 }
 
 // Deliver hands a datagram to the listener exactly as its read loop does (dispatchMsg), without the kernel.
-func (c verifRDLConn) Deliver(p []byte) { c.listener.dispatchMsg(c.rAddr, p) }
-func (c verifRDLConn) Poke()            {}
-func (c verifRDLConn) Close()           { _ = c.Conn.Close(); _ = c.ln.Close() }
+func (c verifRDLConn) Deliver(p []byte)     { c.listener.dispatchMsg(c.rAddr, p) }
+func (c verifRDLConn) Poke()                {}
+func (c verifRDLConn) Close()               { _ = c.Conn.Close(); _ = c.ln.Close() }
+func (c verifRDLConn) CloseKeepsData() bool { return true }
+
 func (c verifRDLConn) Classify(err error) string {
 	var ne interface{ Timeout() bool }
 	switch {
